@@ -40,6 +40,11 @@ innermost enclosing loop and nothing else; `stop` ends the run."
   the new value.  The `forall_*_count` theorems assume that the states of the invariant keep
   the traversed elements; `Loops.forallArr_count_gen` is the general statement (element `i`
   read from `σ i`).
+* **`forall` over a dictionary** visits the keys in ascending byte order of the names
+  (`forall_dict_keys_sorted`; repaired: Go used to range over the map in its unspecified order),
+  so the visits do not depend on how the dictionary stores its entries
+  (`forall_dict_order_independent`, `forall_dict_same_keys`); each key is looked up again when its
+  turn comes (current value; a key removed meanwhile is skipped: `Loops.DictTurn`).
 * **`exit`**: the looping operators keep no bookkeeping in the interpreter state, so "leaving the
   loop" is: the operator returns `ok` in exactly the state in which the body's `exit` was
   executed (in particular the control value / element pushed for that turn stays on the stack
@@ -236,6 +241,88 @@ theorem forall_string_count {f0 m : Nat} {p : Obj} (Inv : State → Prop) (G : U
       exact (hbody _ _ (hinv i (by omega)) (List.getElem_mem _)).1)
     fuel hf
   simpa [σ] using key
+
+/-! ### `forall` over a dictionary: the order of the visits -/
+
+/-- **`forall_dict_keys_sorted`**: the key list the `forall` operator hands to `forallDict` is
+`sortNames` of the dictionary's keys: ascending in the byte order of the names (no later key is
+smaller than an earlier one; strictly ascending since the keys of a dictionary are distinct) and a
+permutation of the keys -/
+theorem forall_dict_keys_sorted (f m : Nat) (s : State) (r o l d : Nat) (rest : List Obj)
+    (hs : s.vm.stack = .proc r o l :: .dict d :: rest) :
+    callBuiltin (f + 1) m s "forall" =
+      forallDict f m (setStack s rest) d (sortNames ((s.vm.getDict d).map (·.1))) (.proc r o l) ∧
+    (sortNames ((s.vm.getDict d).map (·.1))).Pairwise (fun a b => a ≤ b) ∧
+    (sortNames ((s.vm.getDict d).map (·.1))).Pairwise (fun a b => ¬ b < a) ∧
+    (sortNames ((s.vm.getDict d).map (·.1))).Perm ((s.vm.getDict d).map (·.1)) ∧
+    (((s.vm.getDict d).map (·.1)).Nodup →
+      (sortNames ((s.vm.getDict d).map (·.1))).Pairwise (fun a b => a < b)) :=
+  ⟨forall_op_dict f m s r o l d rest hs, sortNames_sorted _, sortNames_sorted' _, sortNames_perm _,
+   sortNames_strict _⟩
+
+/-- **the visiting order does not depend on the order in which the dictionary stores its
+entries**: two stores that are permutations of each other give the same key list -/
+theorem forall_dict_order_independent (d₁ d₂ : List (Name × Obj)) (h : d₁.Perm d₂) :
+    sortNames (d₁.map (·.1)) = sortNames (d₂.map (·.1)) :=
+  sortNames_perm_eq (h.map _)
+
+/-- … at the operator: two interpreter states whose dictionary `d` has the same entries in a
+different order run `forallDict` over the same key list -/
+theorem forall_dict_same_keys (f m : Nat) (s s' : State) (r o l d : Nat) (rest rest' : List Obj)
+    (hs : s.vm.stack = .proc r o l :: .dict d :: rest) (hs' : s'.vm.stack = .proc r o l :: .dict d :: rest')
+    (hperm : (s.vm.getDict d).Perm (s'.vm.getDict d)) :
+    ∃ ks, ks.Pairwise (fun a b => a ≤ b) ∧
+      callBuiltin (f + 1) m s "forall" = forallDict f m (setStack s rest) d ks (.proc r o l) ∧
+      callBuiltin (f + 1) m s' "forall" = forallDict f m (setStack s' rest') d ks (.proc r o l) := by
+  refine ⟨sortNames ((s.vm.getDict d).map (·.1)), sortNames_sorted _, forall_op_dict f m s r o l d rest hs, ?_⟩
+  rw [forall_dict_order_independent _ _ hperm]
+  exact forall_op_dict f m s' r o l d rest' hs'
+
+/-- **`forall` over a dictionary, operator level**: one turn per key that is still present when
+its turn comes, in ascending order of the keys, with key and current value pushed
+(`Loops.DictTurn`); `σ` = the states between the turns -/
+theorem forall_dict_count {f0 m : Nat} (s : State) (r o l d : Nat) (rest : List Obj)
+    (hs : s.vm.stack = .proc r o l :: .dict d :: rest)
+    (σ : Nat → State) (hσ : σ 0 = setStack s rest)
+    (h : ∀ i (hi : i < (sortNames ((s.vm.getDict d).map (·.1))).length),
+      DictTurn f0 m (.proc r o l) d (sortNames ((s.vm.getDict d).map (·.1)))[i] (σ i) (σ (i + 1))) :
+    ∀ fuel, f0 + (s.vm.getDict d).length + 2 ≤ fuel →
+      callBuiltin fuel m s "forall" = (σ (s.vm.getDict d).length, .ok) := by
+  intro fuel hf
+  obtain ⟨f, rfl⟩ : ∃ f, fuel = f + 1 := ⟨fuel - 1, by omega⟩
+  have hl : (sortNames ((s.vm.getDict d).map (·.1))).length = (s.vm.getDict d).length := by
+    rw [length_sortNames, List.length_map]
+  rw [forall_op_dict f m s r o l d rest hs, ← hσ,
+    forallDict_count_gen d (sortNames ((s.vm.getDict d).map (·.1))) σ h f (by omega), hl]
+
+/-- a dictionary stored as `/b 2 /a 1 /c 3` is traversed as `a b c` — derived from
+`sortNames_perm_eq`/`sortNames_of_sorted`, not by evaluation -/
+theorem sortNames_demo : sortNames ["b", "a", "c"] = ["a", "b", "c"] := by
+  rw [sortNames_perm_eq (ks₂ := ["a", "b", "c"]) (by decide)]
+  exact sortNames_of_sorted (by decide)
+
+/-- an interpreter with the dictionary `<< /b 2 /a 1 /c 3 >>` (heap cell 11, stored in this
+order) and the empty procedure `{ }` (cell 12) as the operands of `forall` -/
+def demoDictState : State :=
+  { newInterpreter with vm := { newVM with
+      stack := [.proc 12 0 0, .dict 11],
+      heap := (initHeap.push (.dict [("b", .int 2), ("a", .int 1), ("c", .int 3)])).push (.objs #[]) } }
+
+/-- **`<< /b 2 /a 1 /c 3 >> { } forall` leaves `/a 1 /b 2 /c 3`** (operator level, kernel-checked) -/
+theorem demo_forall_dict :
+    callBuiltin 21 0 demoDictState "forall" =
+      (forallDict 20 0 (setStack demoDictState []) 11 ["a", "b", "c"] (.proc 12 0 0)) ∧
+    (callBuiltin 21 0 demoDictState "forall").2 = .ok ∧
+    (callBuiltin 21 0 demoDictState "forall").1.vm.stack =
+      [.int 3, .name "c", .int 2, .name "b", .int 1, .name "a"] := by
+  have e : callBuiltin 21 0 demoDictState "forall" =
+      forallDict 20 0 (setStack demoDictState []) 11 ["a", "b", "c"] (.proc 12 0 0) := by
+    rw [forall_op_dict 20 0 demoDictState 12 0 0 11 [] rfl]
+    have hk : (demoDictState.vm.getDict 11).map (·.1) = ["b", "a", "c"] := by decide +kernel
+    rw [hk, sortNames_demo]
+  refine ⟨e, ?_, ?_⟩
+  · rw [e]; decide +kernel
+  · rw [e]; decide +kernel
 
 /-! ### `loop`, `exit`, `stop` -/
 
@@ -647,6 +734,14 @@ def runText (p : String) : List Obj × Res × Nat :=
 #guard_msgs in #eval runText "0 1 0 1 {add dup 5 eq {exit} if} for"      -- increment 0, left by `exit`
 /-- info: ([PsVerif.Model.Obj.int 102], PsVerif.Model.Res.ok, 42) -/
 #guard_msgs in #eval runText "/a [1 2 3] def 0 a { add a 2 99 put } forall"  -- element 2 re-read: 1+2+99
+-- `forall` over a dictionary visits the keys in ascending order, whatever the order of definition
+#guard (runText "<< /b 2 /a 1 /c 3 >> { pop exit } forall").1 = [.name "a"]
+#guard (runText "<< /b 2 /a 1 /c 3 >> { pop exit } forall").2.1 = .ok
+#guard (runText "<< /b 2 /a 1 >> { } forall").1 = [.int 2, .name "b", .int 1, .name "a"]
+#guard (runText "<< /a 1 /b 2 >> { } forall").1 = [.int 2, .name "b", .int 1, .name "a"]
+#guard (runText "<< /b 2 /a 1 /B 0 /aa 5 >> { pop } forall").1 = [.name "b", .name "aa", .name "a", .name "B"]
+-- the value of a key is read when its turn comes: a value stored by an earlier turn is seen
+#guard (runText "/d << /a 1 /b 2 /c 3 >> def d { exch pop d /c 30 put } forall").1 = [.int 30, .int 2, .int 1]
 -- the former overflow witness: two turns (11 operations: 5 before the loop + 2 × 3)
 /-- info: ([], PsVerif.Model.Res.ok, 11) -/
 #guard_msgs in #eval runText "0 4611686018427387904 9223372036854775807 {pop} for"
@@ -682,6 +777,15 @@ def runText (p : String) : List Obj × Res × Nat :=
 #print axioms stop_propagates_forall_string
 #print axioms stop_propagates_forall_dict
 #print axioms exit_consumed_by_repeat_operator
+#print axioms forall_dict_keys_sorted
+#print axioms forall_dict_order_independent
+#print axioms forall_dict_same_keys
+#print axioms forall_dict_count
+#print axioms sortNames_demo
+#print axioms demo_forall_dict
+#print axioms PsVerif.Proofs.Loops.sortNames_sorted
+#print axioms PsVerif.Proofs.Loops.sortNames_strict
+#print axioms PsVerif.Proofs.Loops.sortNames_perm_eq
 #print axioms for_zero_endless
 #print axioms loop_endless
 #print axioms repeat_incr
